@@ -236,6 +236,14 @@ def run(ctx):
 
     version_change_rules(ctx, "R-C06.6")
 
+    # ---- borrowed obligations (mechanisms owned by other properties that this property's verdict also rests on)
+    # a transaction's batch contains every keyspace's final writes (the dedupe never drops another keyspace's item)
+    ctx.borrow("C08", ["R-C08.4"], "R-C06.7")
+    # a commit applies all of its items or fails before the first
+    ctx.borrow("C03", ["R-C03.5", "R-C03.10"], "R-C06.8")
+    # the meta keyspace publishes exactly what it drew
+    ctx.borrow("C11", ["R-C11.4"], "R-C06.9")
+
 
 def cross(ctx, D):
     """thorough tier: re-derive VERSION_CHANGING_TABLE from the pinned lsm-tree's own MIR (D): the AbstractTree methods of
